@@ -155,6 +155,7 @@ fn cmp_case(k: u32, a: u64, b: u64) -> Value {
                 RT.with(|rt| ixfr_decision(rt, aa, bb))
             },
             "newserial": lib_new_cmp(aa, bb),
+            "newts": lib_newts_cmp(aa, bb),
             "ref": ref_cmp(32, aa as u64, bb as u64),
             "refk": ref_cmp(k, a, b),
         });
@@ -253,21 +254,22 @@ fn place_case(k: u32, refk: u64, ts: u64, free: bool) -> Value {
     for (c_r, c_ts) in offs {
         let ref32 = (era << 32) + (r << sh) + c_r;
         let ts32 = ((ts << sh) + c_ts) as u32;
-        let placed = lib_place(ts32, ref32);
-        let obs = if free {
-            // totality and requirement 1 of the documentation only
-            match placed {
-                Some(t) if t as u32 == ts32 => json!({"timestamp": "any"}),
-                other => json!({"timestamp": {"free_case_broken": other}}),
-            }
-        } else {
-            match placed {
-                Some(t) if t >= c_ts && (t - c_ts) % s == 0 => {
-                    json!({"timestamp": {"t": (t - c_ts) >> sh}})
+        let mut obs = json!({});
+        for (site, placed) in [("timestamp", lib_place(ts32, ref32)),
+                               ("newts", lib_newts_place(ts32, ref32))] {
+            obs[site] = if free {
+                // totality and requirement 1 of the documentation only
+                match placed {
+                    Some(t) if t as u32 == ts32 => json!("any"),
+                    other => json!({"free_case_broken": other}),
                 }
-                other => json!({"timestamp": {"badlift": other, "ref32": ref32, "ts32": ts32}}),
-            }
-        };
+            } else {
+                match placed {
+                    Some(t) if t >= c_ts && (t - c_ts) % s == 0 => json!({"t": (t - c_ts) >> sh}),
+                    other => json!({"badlift": other, "ref32": ref32, "ts32": ts32}),
+                }
+            };
+        }
         match &first {
             None => first = Some(obs),
             Some(f) if *f != obs => {
@@ -361,7 +363,7 @@ fn window_case(k: u32, lo: u64, hi: u64, x: u64) -> Value {
         let x32 = ((x << sh) + c_x) as u32;
         let mut obs = window_sites(lo32, hi32, x32);
         if !well_formed {
-            for site in ["cookie", "newrange", "range", "tsrange"] {
+            for site in ["cookie", "newrange", "range", "tsrange", "newtsrange"] {
                 if obs[site] == "accept" || obs[site] == "reject" {
                     obs[site] = json!("any");
                 }
@@ -438,11 +440,63 @@ fn instant_case(k: u32, t1: i64, t2: i64) -> Value {
     first.unwrap_or(json!({"no_offsets": true}))
 }
 
+thread_local! {
+    static RIG: std::cell::RefCell<FreshRig> = std::cell::RefCell::new(FreshRig::new());
+}
+
+fn unlimb(v: &Value) -> Option<u32> {
+    let hi = v.get(0)?.as_u64()?;
+    let lo = v.get(1)?.as_u64()?;
+    if hi > 0xFFFF || lo > 0xFFFF {
+        return None;
+    }
+    Some(((hi << 16) | lo) as u32)
+}
+
+/// Freshness of a cookie timestamp at a clock value: TLC has lifted the
+/// k-bit pair to 32 bits itself (limb form) because the site's window
+/// constants are fixed numbers of seconds; the case is executed as given.
+/// Where the specification leaves the decision open ("any": the timestamp is
+/// exactly at an end of the window) the sites are executed for totality.
+fn fresh_case(input: &Value, exp_any: bool) -> Value {
+    let (Some(now), Some(ts)) = (unlimb(&input["now"]), unlimb(&input["ts"])) else {
+        return json!({"bad_case": true});
+    };
+    let mut obs = RIG.with(|r| r.borrow_mut().sites(now, ts));
+    if exp_any {
+        for site in ["mwprefetch", "mwdenied", "optcookie"] {
+            if obs[site] == "accept" || obs[site] == "reject" {
+                obs[site] = json!("any");
+            }
+        }
+    }
+    obs
+}
+
+/// The sites this executor drives, by kind, with the operator of Serial.tla
+/// each is compared against; must be the specification's table.
+fn sites_case() -> Value {
+    json!({
+        "cmp": {"serial": "Cmp", "timestamp": "Cmp", "newserial": "Cmp", "newts": "Cmp",
+                "soa": "Cmp", "rrsig": "Cmp", "sign": "ValidityPeriod", "diff": "NewerSerial",
+                "ixfr": "IxfrUpToDate"},
+        "add": {"serial": "Add", "newserial": "Add"},
+        "window": {"cookie": "InWindow", "newrange": "InWindow", "range": "InWindow",
+                   "tsrange": "InWindow", "newtsrange": "InWindow"},
+        "fresh": {"mwprefetch": "Fresh", "mwdenied": "Fresh", "optcookie": "Fresh"},
+        "place": {"timestamp": "Place", "newts": "Place"},
+    })
+}
+
 fn a_or(input: &Value, key: &str) -> u64 {
     input[key].as_u64().unwrap_or(0)
 }
 
 fn main() {
+    if !RIG.with(|r| r.borrow().selftest()) {
+        eprintln!("clock interposition or hash self-test failed");
+        std::process::exit(2);
+    }
     run_cases(|input| {
         let k = input["k"].as_u64().unwrap_or(0) as u32;
         if !(2..=31).contains(&k) {
@@ -450,6 +504,18 @@ fn main() {
         }
         let a = input["a"].as_u64().unwrap_or(0);
         match input["kind"].as_str() {
+            Some("sites") => sites_case(),
+            Some("fresh") => {
+                // whether the timestamp sits exactly at an end of the window is
+                // decided on the inputs
+                let at_end = match (unlimb(&input["now"]), unlimb(&input["ts"])) {
+                    (Some(now), Some(ts)) => {
+                        ts.wrapping_sub(now) == FUTURE || now.wrapping_sub(ts) == PAST
+                    }
+                    _ => false,
+                };
+                fresh_case(input, at_end)
+            }
             Some("cmp") => cmp_case(k, a, input["b"].as_u64().unwrap_or(0)),
             Some("add") => add_case(k, a, input["n"].as_u64().unwrap_or(0)),
             Some("text") => text_case(
